@@ -129,7 +129,17 @@ def modelSpecHash (h : UInt64) (m : ModelOut) : UInt64 :=
   specHashOf h m.feHit (if m.feHit then some m.entry else none) (if m.feHit then some m.exit else none)
     m.isHit (if m.isHit then some m.ip else none)
 
-def qStr (q : Q) : String := s!"{q.num}/{q.den}"
+/-- number of trailing zero bits (n > 0) -/
+partial def tz (n : Nat) (k : Nat := 0) : Nat := if n == 0 || n % 2 == 1 then k else tz (n / 2) (k + 1)
+
+/-- `num/den`; dyadic values with long digit strings (denormal / huge floats) as `m*2^e` -/
+def qStr (q : Q) : String :=
+  if q.num.natAbs < 10^15 && q.den < 10^15 then s!"{q.num}/{q.den}"
+  else if q.den == 1 then
+    let k := tz q.num.natAbs
+    s!"{q.num / (2^k : Nat)}*2^{k}"
+  else if q.den == 2 ^ (tz q.den) then s!"{q.num}*2^-{tz q.den}"
+  else s!"{q.num}/{q.den}"
 def vStr (v : V3 Q) : String := s!"{qStr v.x},{qStr v.y},{qStr v.z}"
 def oStr (v : Option (V3 Q)) : String := match v with | some v => vStr v | none => "-"
 def bStr (b : Bool) : String := if b then "1" else "0"
@@ -227,6 +237,10 @@ def doubleBitsToQ (u : Nat) : Q :=
 
 def parseQ (s : String) : Q :=
   if s.startsWith "x" then doubleBitsToQ (parseHex ((s.drop 1).toString))
+  else if (s.splitOn "*2^").length == 2 then
+    let m := ((s.splitOn "*2^").getD 0 "0").toInt!
+    let e := ((s.splitOn "*2^").getD 1 "0").toInt!
+    if e ≥ 0 then mkRat (m * 2 ^ e.toNat) 1 else mkRat m (2 ^ (-e).toNat)
   else match s.splitOn "/" with
     | [a, b] => mkRat a.toInt! b.toNat!
     | _ => mkRat s.toInt! 1
@@ -298,7 +312,14 @@ def SweepAcc.merge (a b : SweepAcc) : SweepAcc := Id.run do
            casesWithGuardFail := a.casesWithGuardFail + b.casesWithGuardFail,
            feGuardInside := a.feGuardInside + b.feGuardInside, feGuardOutside := a.feGuardOutside + b.feGuardOutside,
            isFrontSubst := a.isFrontSubst + b.isFrontSubst, isBackSkip := a.isBackSkip + b.isBackSkip,
-           counts := cs, examples := a.examples ++ b.examples }
+           counts := cs,
+           examples := Id.run do
+             -- keep at most 3 examples per category
+             let mut ex := a.examples
+             for e in b.examples do
+               let cat := ((e.splitOn " ").getD 1 "")
+               if (ex.filter (fun x => (x.splitOn " ").getD 1 "" == cat)).length < 3 then ex := ex ++ [e]
+             return ex }
 
 structure SweepBlock where
   T : Q
@@ -350,7 +371,14 @@ def sweepCase (B : SweepBlock) (r : Line3 Q) (implFe implIs : Bool) (a : SweepAc
   let lSmall := lineIval r small
   let rBig := rayIval r big
   let rSmall := rayIval r small
-  let gtag := if gfail then "guardpath" else "noguard"
+  let T' := B.T
+  let faceMax := qabs b.min.x ≥ T' || qabs b.min.y ≥ T' || qabs b.min.z ≥ T' ||
+                 qabs b.max.x ≥ T' || qabs b.max.y ≥ T' || qabs b.max.z ≥ T'
+  let axFail (p d lo hi : Q) : Bool := d == 0 || !codeGuard T' p d lo hi
+  let allFail := axFail r.pos.x r.dir.x b.min.x b.max.x && axFail r.pos.y r.dir.y b.min.y b.max.y &&
+                 axFail r.pos.z r.dir.z b.min.z b.max.z
+  let gtag := if allFail then "all-components-fail-guard" else if faceMax then "box-face-at-TMAX"
+              else if gfail then "other-guardpath" else "other-noguard"
   let desc : Unit → String := fun _ =>
     s!"{B.tag} box={vStr b.min};{vStr b.max} pos={vStr r.pos} dir={vStr r.dir} implFe={bStr implFe} implIs={bStr implIs} exactLine={bStr exact.isSome} exactRay={bStr exactR.isSome}"
   -- line
@@ -359,22 +387,22 @@ def sweepCase (B : SweepBlock) (r : Line3 Q) (implFe implIs : Bool) (a : SweepAc
     | some i =>
       let a := { a with robustLine := a.robustLine + 1 }
       if implFe then a
-      else a.bump s!"findEntryAndExitPoints:hit->miss:{gtag}:{if i.meetsWindow T then "t<=TMAX" else "t>TMAX"}" desc
+      else a.bump s!"findEntryAndExitPoints:hit-to-miss:{gtag}:{if i.meetsWindow T then "t-le-TMAX" else "t-gt-TMAX"}" desc
     | none =>
       if lBig.isNone then
         let a := { a with robustLine := a.robustLine + 1 }
-        if implFe then a.bump s!"findEntryAndExitPoints:miss->hit:{gtag}" desc else a
+        if implFe then a.bump s!"findEntryAndExitPoints:miss-to-hit:{gtag}" desc else a
       else a
   -- ray
   match rSmall with
   | some i =>
     let a := { a with robustRay := a.robustRay + 1 }
     if implIs then a
-    else a.bump s!"intersects:hit->miss:{gtag}:{if i.meetsWindow T then "t<=TMAX" else "t>TMAX"}" desc
+    else a.bump s!"intersects:hit-to-miss:{gtag}:{if i.meetsWindow T then "t-le-TMAX" else "t-gt-TMAX"}" desc
   | none =>
     if rBig.isNone then
       let a := { a with robustRay := a.robustRay + 1 }
-      if implIs then a.bump s!"intersects:miss->hit:{gtag}" desc else a
+      if implIs then a.bump s!"intersects:miss-to-hit:{gtag}" desc else a
     else a
 
 def sweepBlock (B : SweepBlock) : IO SweepAcc := do
